@@ -25,17 +25,28 @@ pub struct Scr {
     buf: Vec<u8>,
 }
 
+thread_local! {
+    static POOL: std::cell::RefCell<Vec<u8>> = const { std::cell::RefCell::new(Vec::new()) };
+}
+
 impl Scr {
+    /// Arena of at least `bytes` bytes.  The buffer is recycled per worker thread: it is completely garbage-filled
+    /// when it is created, and the prefix a call may legitimately touch is re-filled by `fill_prefix` before every
+    /// subject call, so no call ever sees fresh zeros (unless zeros are asked for).
     pub fn new(bytes: usize, fill: usize) -> Self {
-        let mut buf = alloc_aligned::<u8>(bytes.next_multiple_of(64) + 64);
-        garbage(&mut buf, fill);
+        let need = bytes.next_multiple_of(64) + 64;
+        let mut buf = POOL.with(|p| std::mem::take(&mut *p.borrow_mut()));
+        if buf.len() < need {
+            buf = alloc_aligned::<u8>(need.max(2 * MIB));
+            garbage(&mut buf, fill);
+        }
         Scr { buf }
     }
     pub fn fill(&mut self, which: usize) {
         garbage(&mut self.buf, which);
     }
     /// re-fills the first `bytes` bytes (the arena is consumed from the front: with a correct companion query
-    /// nothing past the query size is ever dirtied, and the rest still holds the creation-time garbage)
+    /// nothing past the query size is ever dirtied)
     pub fn fill_prefix(&mut self, which: usize, bytes: usize) {
         let l = bytes.min(self.buf.len()) & !7;
         match which {
@@ -55,6 +66,16 @@ impl Scr {
         self.buf.len()
     }
 }
+
+impl Drop for Scr {
+    fn drop(&mut self) {
+        let b = std::mem::take(&mut self.buf);
+        POOL.with(|p| *p.borrow_mut() = b);
+    }
+}
+
+/// slack re-filled past the companion query before every call
+pub const HOT_SLACK: usize = 64 * 1024;
 
 pub const MIB: usize = 1 << 20;
 
@@ -216,12 +237,22 @@ pub fn terr(got: &IBig, gbits: usize, want: &IBig, wbits: usize) -> (IBig, usize
 pub fn round_to(x: &IBig, bits: usize, k: usize) -> i64 {
     let v: IBig = if bits > k {
         let sh = bits - k;
-        (x + (IBig::from(1) << (sh - 1))) >> sh
+        floor_shr(&(x + (IBig::from(1) << (sh - 1))), sh)
     } else {
         x << (k - bits)
     };
     let r = torus::centered_mod_pow2(&v, k);
     i64::try_from(r).unwrap()
+}
+
+/// floor(x / 2^sh) for any sign
+pub fn floor_shr(x: &IBig, sh: usize) -> IBig {
+    let m: IBig = IBig::from(1) << sh;
+    let mut r = x % &m;
+    if r < IBig::from(0) {
+        r += &m;
+    }
+    (x - r) >> sh
 }
 
 pub fn ibig_abs(x: &IBig) -> IBig {
@@ -541,5 +572,43 @@ pub fn noise_infos(cfg: NoiseCfg, k: usize) -> NoiseInfos {
     match cfg {
         NoiseCfg::Default => NoiseInfos::new(k, poulpy_core::DEFAULT_SIGMA_XE, 6.0 * poulpy_core::DEFAULT_SIGMA_XE).unwrap(),
         NoiseCfg::Tight => NoiseInfos::new(k, 1.0, 1.0).unwrap(),
+    }
+}
+
+// ---------------------------------------------------------------------------------------------
+// GGSW byte access (the layout has no raw accessor): cell by cell
+// ---------------------------------------------------------------------------------------------
+
+pub fn ggsw_dims(g: &poulpy_core::layouts::GGSW<Vec<u8>>) -> (usize, usize) {
+    use poulpy_core::layouts::{GGSWInfos, GLWEInfos};
+    (g.dnum().as_usize(), g.rank().as_usize() + 1)
+}
+
+pub fn ggsw_bytes(g: &poulpy_core::layouts::GGSW<Vec<u8>>) -> Vec<u8> {
+    let (rows, cols) = ggsw_dims(g);
+    let mut out = vec![];
+    for r in 0..rows {
+        for c in 0..cols {
+            out.extend_from_slice(g.at(r, c).data().data);
+        }
+    }
+    out
+}
+
+pub fn ggsw_garbage(g: &mut poulpy_core::layouts::GGSW<Vec<u8>>, which: usize) {
+    let (rows, cols) = ggsw_dims(g);
+    for r in 0..rows {
+        for c in 0..cols {
+            garbage(g.at_mut(r, c).data_mut().data, which);
+        }
+    }
+}
+
+pub fn ggsw_copy(dst: &mut poulpy_core::layouts::GGSW<Vec<u8>>, src: &poulpy_core::layouts::GGSW<Vec<u8>>) {
+    let (rows, cols) = ggsw_dims(src);
+    for r in 0..rows {
+        for c in 0..cols {
+            dst.at_mut(r, c).data_mut().data.copy_from_slice(src.at(r, c).data().data);
+        }
     }
 }
